@@ -43,6 +43,14 @@ type verdictStats struct {
 func checkQuery(t interface {
 	Fatalf(string, ...interface{})
 }, what string, q *query, trees []*refTree, accept func() error, vs *verdictStats) {
+	checkQueryOpt(t, what, q, trees, accept, vs, true)
+}
+
+// checkQueryOpt: complete=false asserts soundness only (an accepted query must be genuine), for situations in which
+// the property does not oblige the code to accept.
+func checkQueryOpt(t interface {
+	Fatalf(string, ...interface{})
+}, what string, q *query, trees []*refTree, accept func() error, vs *verdictStats, complete bool) {
 	err := accept()
 	genuine := exactGenuine(q, trees)
 	if err == nil {
@@ -70,7 +78,7 @@ func checkQuery(t interface {
 		just := justified(q, trees) != nil
 		t.Fatalf("%s: accepted a (item,index,total,path) combination that is not genuine: index=%d total=%d aunts=%d item=%x justified(item at index of total-leaf tree with this root)=%v kinds=%v",
 			what, q.proof.Index, q.proof.Total, len(q.proof.Aunts), trunc(q.item), just, q.kinds)
-	case err != nil && genuine:
+	case err != nil && genuine && complete:
 		t.Fatalf("%s: rejected a genuine proof (index=%d total=%d kinds=%v): %v", what, q.proof.Index, q.proof.Total, q.kinds, err)
 	}
 }
@@ -314,33 +322,62 @@ func TestTxProof(t *testing.T) {
 			default:
 				dataHash = cloneBytes(q.root)
 			}
-			mtp := types.TxProof{RootHash: q.root, Data: data, Proof: q.proof}
+			// the attacker's natural last step: make the leaf hash consistent with the transaction presented
+			if rapid.IntRange(0, 5).Draw(t, "fixleaf") == 0 && !bytes.Equal(q.proof.LeafHash, refLeafHash(q.item)) {
+				q.proof.LeafHash = refLeafHash(q.item)
+				q.kinds = append(q.kinds, "leafhash-of-data")
+			}
+			// the RootHash FIELD is the sender's, independent of the data hash the caller takes from the header
+			rootField := q.root
+			switch rapid.SampledFrom([]string{"", "", "", "", "", "", "empty", "nil", "short", "extended", "other-32", "zero-32"}).Draw(t, "roothash") {
+			case "empty":
+				rootField = []byte{}
+				q.kinds = append(q.kinds, "roothash-empty")
+			case "nil":
+				rootField = nil
+				q.kinds = append(q.kinds, "roothash-nil")
+			case "short":
+				rootField = cloneBytes(q.root[:rapid.IntRange(1, len(q.root)-1).Draw(t, "rhlen")])
+				q.kinds = append(q.kinds, "roothash-short")
+			case "extended":
+				rootField = append(cloneBytes(q.root), 0)
+				q.kinds = append(q.kinds, "roothash-extended")
+			case "other-32":
+				rootField = cloneBytes(b.root)
+				q.kinds = append(q.kinds, "roothash-other")
+			case "zero-32":
+				rootField = make([]byte, 32)
+				q.kinds = append(q.kinds, "roothash-zero")
+			}
+			mtp := types.TxProof{RootHash: rootField, Data: data, Proof: q.proof}
 			if rapid.Bool().Draw(t, "viaproto") && q.proof.ValidateBasic() == nil {
+				// over the wire: marshal, unmarshal, TxProofFromProto (what an RPC client receives)
 				pb := mtp.ToProto()
-				back, err := types.TxProofFromProto(pb)
+				wire, err := pb.Marshal()
 				if err != nil {
-					t.Fatalf("TxProofFromProto(ToProto) failed on a proof passing ValidateBasic: %v", err)
+					t.Fatalf("TxProof marshal: %v", err)
+				}
+				var pb2 tmproto.TxProof
+				if err := pb2.Unmarshal(wire); err != nil {
+					t.Fatalf("TxProof unmarshal: %v", err)
+				}
+				back, err := types.TxProofFromProto(pb2)
+				if err != nil {
+					t.Fatalf("TxProofFromProto(wire) failed on a proof passing ValidateBasic: %v", err)
 				}
 				if !bytes.Equal(back.RootHash, mtp.RootHash) || !bytes.Equal(back.Data, mtp.Data) || back.Proof.Index != mtp.Proof.Index ||
 					back.Proof.Total != mtp.Proof.Total || !bytes.Equal(back.Proof.LeafHash, mtp.Proof.LeafHash) || !auntsEqual(back.Proof.Aunts, mtp.Proof.Aunts) {
-					t.Fatalf("TxProof proto round trip changed the proof")
+					t.Fatalf("TxProof wire round trip changed the proof")
 				}
 				mtp = back
+				q.kinds = append(q.kinds, "via-wire")
 			}
-			// ground truth: Validate(dataHash)==nil only if dataHash is the root the proof names AND the query is genuine
-			// against that root.
-			if !bytes.Equal(dataHash, q.root) {
-				// the caller's data hash is not the root the proof names: must be refused whatever the proof says
-				if err := mtp.Validate(dataHash); err == nil {
-					t.Fatalf("TxProof.Validate accepted with RootHash != dataHash; kinds=%v", q.kinds)
-				}
-				vs.mutated++
-				if q.proof.ValidateBasic() == nil {
-					vs.mutatedBasicOK++
-				}
-			} else {
-				checkQuery(t, "TestTxProof", q, trees, func() error { return mtp.Validate(dataHash) }, &vs)
-			}
+			// ground truth, phrased on what the CALLER holds (the data hash from the verified header): Validate(dataHash)==nil
+			// only if the transaction presented is leaf Index of the Total-leaf list whose root dataHash is, with the genuine
+			// path. Whatever the RootHash field says cannot justify an acceptance. Completeness is required only when the
+			// field agrees with the caller's data hash.
+			qq := &query{proof: q.proof, item: q.item, root: dataHash, kinds: q.kinds}
+			checkQueryOpt(t, "TestTxProof", qq, trees, func() error { return mtp.Validate(dataHash) }, &vs, bytes.Equal(dataHash, rootField))
 			for _, k := range q.kinds {
 				lib.Class("TestTxProof", "mut:"+k)
 			}
